@@ -227,4 +227,77 @@ theorem full_side_good (n : Nat) (hn : 1 ≤ n) : Good n (List.range n) := by
 example : Good 4 [0, 1, 3] := goodAsc_sound 4 [0, 1, 3] (by decide)
 example : (contour (sides 3 4 [0, 1, 3] [0, 2] [3, 2, 0] [2, 0])).Nodup := by decide
 
+
+/-! ### geostationary areas: splitting the vertices of (extent ∩ disk polygon) into four sides -/
+
+theorem aux_dropLast_take {α} (x : List α) (k : Nat) (h : k + 1 ≤ x.length) : (x.take (k + 1)).dropLast = x.take k := by
+  rw [List.dropLast_eq_take, List.length_take, List.take_take]
+  congr 1; omega
+
+theorem aux_split_last' {α} (x : List α) (a : α) (h : x.getLast? = some a) : x.dropLast ++ [a] = x := by
+  have hne : x ≠ [] := by intro e; simp [e] at h
+  have := List.dropLast_concat_getLast hne
+  rw [List.getLast?_eq_some_getLast hne] at h
+  injection h with h
+  rw [← h]; exact this
+
+theorem geos_contour {α} (x : List α) (h : 4 ≤ x.length) : contourOf (geosSides x) = x := by
+  have hne : x ≠ [] := by intro e; simp [e] at h
+  obtain ⟨a, ha⟩ : ∃ a, x.getLast? = some a := ⟨x.getLast hne, List.getLast?_eq_some_getLast hne⟩
+  obtain ⟨b, hb⟩ : ∃ b, x.head? = some b := by
+    cases x with
+    | nil => exact absurd rfl hne
+    | cons b t => exact ⟨b, rfl⟩
+  unfold contourOf geosSides
+  simp only [List.flatMap_cons, List.flatMap_nil, List.append_nil, ha, hb, Option.toList_some]
+  generalize hs : x.length / 2 - 1 = s
+  have h1 : s + 2 ≤ x.length := by omega
+  rw [aux_dropLast_take x s (by omega)]
+  have e2 : ((x.drop s).take 2).dropLast = (x.drop s).take 1 := by
+    have := aux_dropLast_take (x.drop s) 1 (by simp; omega)
+    simpa using this
+  rw [e2]
+  have e3 : (x.drop (s + 1)).dropLast ++ [a] = x.drop (s + 1) := by
+    apply aux_split_last'
+    rw [List.getLast?_drop]; simp [ha]; omega
+  have e4 : ([a] ++ [b] : List α).dropLast = [a] := rfl
+  rw [e4]
+  have e5 : (x.drop s).take 1 ++ x.drop (s + 1) = x.drop s := by
+    have := List.take_append_drop 1 (x.drop s)
+    rw [List.drop_drop] at this
+    exact this
+  calc x.take s ++ ((x.drop s).take 1 ++ ((x.drop (s + 1)).dropLast ++ [a]))
+      = x.take s ++ ((x.drop s).take 1 ++ x.drop (s + 1)) := by rw [e3]
+    _ = x.take s ++ x.drop s := by rw [e5]
+    _ = x := List.take_append_drop s x
+theorem geos_sides_chain {α} (x : List α) (h : 4 ≤ x.length) :
+    let s := x.length / 2 - 1
+    (x.take (s + 1)).getLast? = ((x.drop s).take 2).head? ∧
+    ((x.drop s).take 2).getLast? = (x.drop (s + 1)).head? ∧
+    (x.drop (s + 1)).getLast? = (x.getLast?.toList ++ x.head?.toList).head? ∧
+    (x.getLast?.toList ++ x.head?.toList).getLast? = (x.take (s + 1)).head? := by
+  intro s
+  have hs : s + 2 ≤ x.length := by omega
+  have hne : x ≠ [] := by intro e; simp [e] at h
+  obtain ⟨a, ha⟩ : ∃ a, x.getLast? = some a := ⟨x.getLast hne, List.getLast?_eq_some_getLast hne⟩
+  obtain ⟨b, hb⟩ : ∃ b, x.head? = some b := by
+    cases x with
+    | nil => exact absurd rfl hne
+    | cons b t => exact ⟨b, rfl⟩
+  refine ⟨?_, ?_, ?_, ?_⟩
+  · rw [List.getLast?_take, List.head?_take, List.head?_drop]
+    simp
+    have : s < x.length := by omega
+    rw [List.getElem?_eq_getElem this]; rfl
+  · rw [List.getLast?_take, List.head?_drop]
+    simp
+    have : s + 1 < x.length := by omega
+    rw [List.getElem?_eq_getElem this]; rfl
+  · rw [List.getLast?_drop, ha, hb]; simp; omega
+  · rw [ha, hb, List.head?_take]; simp [hb]
+
+/-- non-vacuity / odd vertex counts: seven vertices -/
+example : contourOf (geosSides [0, 1, 2, 3, 4, 5, 6]) = [0, 1, 2, 3, 4, 5, 6] := by decide
+example : geosSides [0, 1, 2, 3, 4, 5, 6] = [[0, 1, 2], [2, 3], [3, 4, 5, 6], [6, 0]] := by decide
+
 end PyresampleModel.C16
